@@ -92,7 +92,6 @@ class Client(base.AbstractClient):
             'Authorization': f'Bearer {self._get_jwt()}',
             'Accept': self.accept_header,
         }
-        print(headers)
         response = self.session.post(url, headers=headers)
         response.raise_for_status()
         return response.json()['token']
